@@ -10,7 +10,9 @@ import (
 	"os"
 	"os/exec"
 	"path/filepath"
+	"regexp"
 	"strings"
+	"sync"
 	"testing"
 	"time"
 
@@ -45,6 +47,35 @@ func goEnv() []string {
 	return env
 }
 
+// Environment trouble: a tool failed for a reason that has nothing to do with
+// its input (disk full, build cache removed under a running build, the
+// toolchain's own tree unreadable, the process killed). Such a failure is
+// never a verdict: the case that observed it is inconclusive.
+var (
+	envMu      sync.Mutex
+	envTrouble string
+	reEnvFail  = regexp.MustCompile(`(?m)no space left on device|cannot allocate memory|signal: killed|resource temporarily unavailable|too many open files|build cache is required|failed to initialize build cache|go-build\S*: no such file or directory|^(/usr/lib/go|/opt/veriftools/go)\S*/src/\S+: package \S+ is not in std`)
+)
+
+func noteEnvTrouble(out string) {
+	if m := reEnvFail.FindString(out); m != "" {
+		envMu.Lock()
+		if envTrouble == "" {
+			envTrouble = m
+		}
+		envMu.Unlock()
+	}
+}
+
+// takeEnvTrouble returns and clears the environment failure seen since the last call.
+func takeEnvTrouble() string {
+	envMu.Lock()
+	defer envMu.Unlock()
+	m := envTrouble
+	envTrouble = ""
+	return m
+}
+
 func run(dir string, timeout time.Duration, name string, args ...string) (string, int, bool) {
 	cmd := exec.Command(name, args...)
 	cmd.Dir = dir
@@ -64,6 +95,7 @@ func run(dir string, timeout time.Duration, name string, args ...string) (string
 			if ee, ok := err.(*exec.ExitError); ok {
 				code = ee.ExitCode()
 			}
+			noteEnvTrouble(buf.String())
 		}
 		return buf.String(), code, false
 	case <-time.After(timeout):
@@ -732,6 +764,9 @@ func TestBin(t *testing.T) {
 			p.AutoInstr = true
 		}
 		oc := runCase(p, prop, *flagScn, race, fmt.Sprint(*flagShard), "")
+		if m := takeEnvTrouble(); m != "" && oc.inconclusive == "" {
+			oc.inconclusive = "a tool failed for an environmental reason (" + m + "): no verdict"
+		}
 		if oc.inconclusive != "" {
 			if *flagOut != "" {
 				f, err := os.OpenFile(filepath.Join(*flagOut, fmt.Sprintf("inconclusive-%s-%d.txt", prop, *flagShard)), os.O_APPEND|os.O_CREATE|os.O_WRONLY, 0o644)
